@@ -24,7 +24,9 @@ RULE = ("case = scenario (functional in {solve, symeig, svd, rootfinder, equilib
         "the baseline taken after the harness tensors exist; distinct = distinct per-scenario observation tables; a "
         "case is trivial when every event kind raised in the warm-up")
 RULE_ADDED = ('Added later: variants maxrank, singE, diag, tsgrad, vary (values never seen before in the process) a'
-              'nd large (600 samples / 300 nodes: code paths selected by a size threshold).')
+              'nd large (600 samples / 300 nodes: code paths selected by a size threshold). Round 4: variants raise'
+              's (failed calls are part of the history and must leave nothing behind) and debug (every event inside'
+              ' enable_debug).')
 ASSUMPTIONS = [
     "one discarded warm-up call of each event kind per case (lazily created torch / library globals are not the property)",
     "census = torch.Tensor objects in gc.get_objects() allocated after gc.freeze() (taken after the warm-up); "
